@@ -286,10 +286,15 @@ def CbOK : CbOut → Prop
 theorem cmpOut_cb (op : BinOp) (cmp : Int) : CbOK (cmpOut op cmp) := by
   unfold cmpOut applyCompare CbOK; cases op <;> simp
 
+theorem compareNumberItems_cb (op : BinOp) (l r : Item) : CbOK (compareNumberItems op l r) := by
+  unfold compareNumberItems
+  repeat' split
+  all_goals first | exact cmpOut_cb _ _ | (simp [CbOK]; done)
+
 theorem compareItems_cb (c : Ctx) (op : BinOp) (l r : Item) : CbOK (compareItems c op l r) := by
   unfold compareItems
   repeat' split
-  all_goals first | exact cmpOut_cb _ _ | (simp [CbOK]; done)
+  all_goals first | exact cmpOut_cb _ _ | exact compareNumberItems_cb _ _ _ | (simp [CbOK]; done)
 
 theorem startsWith_cb (l r : Item) : CbOK (startsWith l r) := by
   unfold startsWith; split <;> simp [CbOK]
